@@ -100,6 +100,16 @@ func (tr *Translator) runBody(ct *Contract, full bool) {
 	for i, cl := range ct.Ensures {
 		env := tr.contractEnv(ct, ct.PostNames, append(append([]Val{}, args...), res...), out, f.entry)
 		g := tr.specBool(cl, env)
+		// vacuity per clause: the antecedent of "imp(A, B)" must be reachable at exit, else the
+		// clause says nothing (a contradictory case distinction in the requires would hide here)
+		if call, ok := cl.Expr.(*ast.CallExpr); ok && len(call.Args) == 2 {
+			if id, ok := call.Fun.(*ast.Ident); ok && id.Name == "imp" {
+				cenv := *env
+				cenv.info = cl.Info
+				a := cenv.expr(call.Args[0]).t
+				c.addObl(&Obligation{Name: fmt.Sprintf("%s#post.%d.cover", ct.Qual, i+1), Kind: "cover", Guard: out.guard, Goal: a, ExpectSat: true, Pos: "antecedent reachable: " + cl.Text, Func: ct.Qual})
+			}
+		}
 		o := &Obligation{Name: fmt.Sprintf("%s#post.%d", ct.Qual, i+1), Kind: "post", Guard: out.guard, Goal: g, Pos: cl.Text, Func: ct.Qual}
 		if len(f.rets) > 1 && len(f.rets) <= 64 && len(ct.Ghosts) == 0 {
 			for _, r := range f.rets {
@@ -307,7 +317,11 @@ func (tr *Translator) assumeGlobalInvs(st *State) {
 		e.info = gi.Clause.Info
 		g := e.expr(gi.Clause.Expr).t
 		owner := ""
+		expanded := g
 		for _, tok := range tokRe.FindAllString(g, -1) {
+			expanded += " " + defText(c, tok) // heap reads may hide behind definitions (ld!N, sld!N)
+		}
+		for _, tok := range tokRe.FindAllString(expanded, -1) {
 			if _, ok := c.declIdx[tok]; !ok {
 				continue
 			}
